@@ -244,9 +244,9 @@ def run_children(binary, args_for_range, n_items, scratch, procs=None, per_item_
     results = [None] * n_items
     if n_items == 0:
         return results
-    # a child handles at most 60 items: worlds leave garbage behind (chain DBs on memory storage,
+    # a child handles at most 25 items (a child that had run 60 free-running worlds held 6-7 GB; 16 of them do not fit): worlds leave garbage behind (chain DBs on memory storage,
     # abandoned goroutines of crashed instances) and a long-lived child grows without bound
-    chunk = max(1, min((n_items + procs - 1) // procs, 60))
+    chunk = max(1, min((n_items + procs - 1) // procs, 25))
     pending = [(a, min(a + chunk, n_items)) for a in range(0, n_items, chunk)]
     running = []
 
